@@ -113,6 +113,32 @@ Proof. exact write_delay_flood. Qed.
 Theorem C10_flood_on_is_rule : forall st a a' c, write_delay false st a a' c = rate_limit st a a' c.
 Proof. exact write_delay_noflood. Qed.
 
+(* ---------- a whole write(): the "hold" check ---------- *)
+(* the counters write leaves behind are exactly those rateLimit computed: the sleep (or
+   anything else in write) does not touch them; with Flood set they are not touched at all *)
+Theorem C10_write_counters : forall st a a' c,
+  fst (write_delay false st a a' c) = fst (rate_limit st a a' c)
+  /\ fst (write_delay true st a a' c) = st.
+Proof. exact write_counters. Qed.
+
+(* window bound anchored at a known state: its penalty plus everything charged since never
+   exceeds the time since its lastsent by more than 10 s *)
+Theorem C10_anchored : forall st0 l e,
+  fs_bad st0 <= threshold -> honoured st0 (fs_last st0) (l ++ [e]) ->
+  fs_bad st0 + charge (l ++ [e]) <= (s_w e - fs_last st0) + threshold.
+Proof. exact anchored_bound. Qed.
+
+(* the runtime oracle of the hold check accepts every honoured two-line history as the
+   harness observes it (arrival stamps late never early): noise cannot alarm *)
+Theorem C10_hold_oracle : forall bad e1 e2 m1 r1 m2,
+  fs_bad {| fs_bad := bad; fs_last := 0 |} <= threshold ->
+  honoured {| fs_bad := bad; fs_last := 0 |} 0 [e1; e2] ->
+  s_w e1 <= m1 -> s_w e1 <= r1 <= s_a e2 -> s_w e2 <= m2 ->
+  let st1 := fst (step {| fs_bad := bad; fs_last := 0 |} e1) in
+  let st2 := fst (step st1 e2) in
+  C10_hold_ok (s_chars e1) bad (s_chars e2) (s_a2 e1) (fs_bad st1) m1 r1 (fs_bad st2) (s_a2 e2) m2 = true.
+Proof. exact hold_oracle_holds. Qed.
+
 (* ---------- the one-call oracle ---------- *)
 (* C10_ok accepts an observation of one rateLimit call iff some admissible pair of clock
    readings t0 <= a <= a' = t0+lastoff <= t0+slack makes the rule produce exactly it *)
@@ -170,6 +196,16 @@ Example C10_ok_examples :
   /\ C10_ok 0 8000000001 0 150 2000000000 10000000001 100 = true.
 Proof. repeat split; vm_compute; reflexivity. Qed.
 
+(* the hold oracle: penalty 9.7 s, two 1-byte lines.  Accepted: both lines held for
+   2.008333333 s, counters as rateLimit left them.  Rejected: the same run with the first
+   line's charge taken off again after the sleep ("conn.badness -= t": 9.699996 s instead of
+   11.708329333 s), and a second line that arrives unheld 2.0 s early. *)
+Example C10_hold_examples :
+  C10_hold_ok 1 9700000000 1 5000 11708329333 2008438333 2008500000 11708067666 2008601000 4016984333 = true
+  /\ C10_hold_ok 1 9700000000 1 5000 9699996000 2008438333 2008500000 9699734333 2008601000 2008651000 = false
+  /\ C10_hold_ok 1 9700000000 1 5000 11708329333 2008438333 2008500000 11708067666 2008601000 2008651000 = false.
+Proof. repeat split; vm_compute; reflexivity. Qed.
+
 Print Assumptions tie_C10.
 Print Assumptions C10_rule.
 Print Assumptions C10_rule_charge.
@@ -185,3 +221,6 @@ Print Assumptions C10_window_tolerance.
 Print Assumptions C10_flood_off.
 Print Assumptions C10_flood_on_is_rule.
 Print Assumptions C10_ok_says.
+Print Assumptions C10_write_counters.
+Print Assumptions C10_anchored.
+Print Assumptions C10_hold_oracle.
